@@ -1,1 +1,9 @@
 import XPathV.Theorems.C15
+#print axioms XPathV.Theorems.C15.dispatch_total
+#print axioms XPathV.Theorems.C15.conversions_total
+#print axioms XPathV.Theorems.C15.unsupported_constructs_rejected
+#print axioms XPathV.Theorems.C15.round_returns_int
+#print axioms XPathV.Theorems.C15.variables_rejected
+#print axioms XPathV.Theorems.C15.comparison_never_crashes
+#print axioms XPathV.Theorems.C15.mod_never_crashes
+#print axioms XPathV.Theorems.C15.logical_select_finite
